@@ -51,15 +51,23 @@ def make_model(cfg):
     d = cfg["dim"]
     kw = dict(dim=d, var=cfg.get("var", 1.6), len_scale=cfg.get("len_scale", 2.0), nugget=cfg.get("nugget", 0.0))
     if cfg.get("aniso") and d > 1:
-        kw.update(anis=ANIS[d], angles=ANG[d])
+        kw.update(anis=_anis(cfg), angles=_ang(cfg))
     kw.update(cfg["opts"])
     return getattr(gs, cfg["cls"])(**kw)
+
+
+def _anis(cfg):
+    return list(cfg.get("anis") or ANIS[cfg["dim"]])
+
+
+def _ang(cfg):
+    return list(cfg.get("angles") or ANG[cfg["dim"]])
 
 
 def iso(cfg, x):
     d = cfg["dim"]
     if cfg.get("aniso") and d > 1:
-        return og.isometrize(d, ANG[d], ANIS[d], x)
+        return og.isometrize(d, _ang(cfg), _anis(cfg), x)
     return np.asarray(x, dtype=float).reshape(d, -1)
 
 
@@ -70,8 +78,8 @@ def lag_lattice(cfg):
     lags = [np.outer(np.eye(d)[0], t)]
     if d > 1:
         lags.append(np.outer(np.ones(d) / math.sqrt(d), t))
-        Rm = og.rotation(d, ANG[d]) if cfg.get("aniso") else np.eye(d)
-        sc = [1.0] + (ANIS[d] if cfg.get("aniso") else [1.0] * (d - 1))
+        Rm = og.rotation(d, _ang(cfg)) if cfg.get("aniso") else np.eye(d)
+        sc = [1.0] + (_anis(cfg) if cfg.get("aniso") else [1.0] * (d - 1))
         for i in range(d):
             lags.append(np.outer(Rm[:, i] * sc[i], t))
     return np.concatenate(lags, axis=1)
@@ -231,6 +239,16 @@ def case_nugget(case):
     r.true("nugget noise: variance within 6 sigma of 1 (pointwise variance = var + nugget)", abs(xi.var() - 1) <= 6 * math.sqrt(2.0 / n), info=float(xi.var()), **extra)
     r.true("nugget noise: fourth moment within 6 sigma of 3", abs((xi**4).mean() - 3) <= 6 * math.sqrt(96.0 / n), info=float((xi**4).mean()), **extra)
     r.true("nugget noise: uncorrelated between neighbouring points", abs(np.mean(xi[1:] * xi[:-1])) <= 6 / math.sqrt(n - 1), info=float(np.mean(xi[1:] * xi[:-1])), **extra)
+    # the noise is drawn independently of the mode amplitudes and phases (entry by entry, too)
+    zz = []
+    for s in range(case["seed0"], case["seed0"] + case["nseeds"]):
+        g_ = gs.SRF(m, seed=s, mode_no=16).generator
+        zz.append(np.concatenate([np.array(g_._z_1)[:16], np.array(g_._z_2)[:16]]))
+    zz = np.array(zz)  # (seeds, 32)
+    xj = np.array(xs)[:, :16]
+    for nm_, blk in (("z_1", zz[:, :16]), ("z_2", zz[:, 16:])):
+        cj = float(np.mean(xj * blk))
+        r.true(f"nugget noise of point j uncorrelated with the amplitude {nm_}[j] of the same seed", abs(cj) <= 6 / math.sqrt(xj.size), info=cj, **extra)
     sm = np.concatenate([np.array(gs.SRF(m, seed=s, mode_no=16).generator(m.isometrize(x), add_nugget=False)) for s in range(case["seed0"], case["seed0"] + 8)])
     r.true("nugget noise uncorrelated with the smooth part", abs(np.mean(xi[: sm.size] * sm)) <= 6 * math.sqrt(m.var / sm.size), info=float(np.mean(xi[: sm.size] * sm)), **extra)
     return r.done(outcome=[round(float(xi.var()), 5)])
@@ -404,6 +422,14 @@ def run(chk):
                     if tier == "quick" and ((aniso and N != 100) or (alt and N != 100) or (slow and N != 100)):
                         continue
                     enc.append({"cfg": dict(base, mode_no=N), "seed0": s0, "nseeds": S if not (slow and tier == "quick") else 16})
+    # rotations about one axis only and partly equal anisotropy ratios (shortcuts for "unrotated" / "isotropic" models)
+    for cls in ("Gaussian", "Exponential"):
+        for ang in ([0.0, 0.0, 1.1], [0.0, 0.9, 0.0], [0.7, 0.0, 0.0], [0.0, 0.0, math.pi / 2]):
+            for anis in ([1.0, 0.1], [0.5, 0.5], [1.0, 1.0], [0.3, 1.0]):
+                stc.append({"cfg": {"cls": cls, "dim": 3, "opts": {}, "aniso": True, "gen": "RandMeth", "mode_no": 12, "angles": ang, "anis": anis}, "seed": s0})
+        for ang in ([0.8],):
+            for anis in ([1.0], [0.4]):
+                stc.append({"cfg": {"cls": cls, "dim": 2, "opts": {}, "aniso": True, "gen": "RandMeth", "mode_no": 12, "angles": ang, "anis": anis}, "seed": s0})
     # forced sampling strategies
     for cls, d, ls in (("Gaussian", 1, 2.0), ("Gaussian", 2, 0.7), ("Gaussian", 3, 2.0), ("Exponential", 1, 0.7), ("Exponential", 2, 2.0), ("Exponential", 3, 3.0), ("Exponential", 3, 0.5)):
         enc.append({"cfg": {"cls": cls, "dim": d, "opts": {}, "aniso": False, "gen": "RandMeth", "mode_no": 50, "sampling": "inversion", "len_scale": ls}, "seed0": s0, "nseeds": S})
